@@ -94,8 +94,12 @@ def regimes(tr):
         r.add("biased_covariance")
     if hdr["epsPos"]:
         r.add("eps_floor")
-    if hdr.get("betaForm") == "vector":
+    if hdr.get("betaForm") in ("vector", "vector_var"):
         r.add("vector_beta")
+    if hdr.get("betaForm") == "vector_var":
+        r.add("unequal_per_pair_beta")
+        if any(a != b for a, b in zip(labels, labels[1:])):
+            r.add("label_switch_under_unequal_per_pair_beta")
     if hdr["W"] % 2 == 1:
         r.add("odd_W")
     if hdr["W"] == 1:
